@@ -75,6 +75,7 @@ def main():
 
     try:
         n = 40 if T == "quick" else 500
+        shared_clients = {}
         for ti in range(n):
             ncols = rng.randint(1, 5)
             cols = ["c%d" % j for j in range(ncols)]
@@ -90,7 +91,9 @@ def main():
                     elif t == "d":
                         row.append(rng.choice([0.5, 1.5, -2.25, 3.0, 1e10, 0.0, 1e+20, 12345678.5]))
                     else:
-                        row.append(rng.choice(["u", "vw", "x", "abc", "A b", "a+b", "a b"]))
+                        # lengths on both sides of the 4-byte padding boundary: two string cells of one record can then have
+                        # padded sizes that are a permutation of another record's
+                        row.append(rng.choice(["u", "vw", "x", "abc", "A b", "a+b", "a b", "abcde", "wxyzvu", ""]))
                 rows.append(tuple(row))
             # ---- three backends
             def build(backend):
@@ -99,7 +102,7 @@ def main():
                 for c in cols:
                     seq[c] = BaseType(c)
                 if backend == "numpy":
-                    dt = [(c, {"i": "i4", "d": "f8", "s": "S4"}[t]) for c, t in zip(cols, types)]
+                    dt = [(c, {"i": "i4", "d": "f8", "s": "S8"}[t]) for c, t in zip(cols, types)]
                     seq.data = np.array(rows, dtype=dt)
                 else:
                     seq.data = IterData([tuple({"i": np.int32, "d": np.float64, "s": str}[t](v) for t, v in zip(types, row))
@@ -188,7 +191,11 @@ def main():
                                 c = open_url("http://localhost:8001/d?" + ce, application=app)
                                 got = [[norm(v) for v in rec] for rec in c[sq].iterdata()]
                             else:
-                                c = open_url("http://localhost:8001/d", application=app)
+                                # ONE client dataset per (table, back end) answers all operator cases of that table: an earlier
+                                # expression must not leak into a later one
+                                if (ti, backend) not in shared_clients:
+                                    shared_clients[(ti, backend)] = open_url("http://localhost:8001/d", application=app)
+                                c = shared_clients[(ti, backend)]
                                 s = c[sq]
                                 steps = []
                                 for cl in clauses:
